@@ -17,19 +17,19 @@ PROP = {
          "ListMatcher.copy()", "MultiMatcher.copy()", "MultiMatcher.reset()", "MultiMatcher advertised", "AndMaybeMatcher.weight()",
          "SpanCondition matcher", "ArrayUnionMatcher and PreloadedUnionMatcher", "ArrayUnionMatcher.skip_to()"],
  "C20": ["MultiIdSet membership", "BitSet.discard()", "SortedIntSet.discard()", "BitSet could not be built", "BitSet.invert_update",
-         "ReverseIdSet.last()", "iterating an OnDiskBitSet", "hash type 2"],
+         "ReverseIdSet.last()", "iterating an OnDiskBitSet", "hash type 2", "OrderedHashWriter rejected"],
  "C10": ["W3Codec(inlinelimit", "ListMatcher.value()", "Existence-format term vectors", "vector_as()", "plain-text codec", "codecs without cancel_doc"],
  "C14": ["an empty filter", "ResultsPage of an empty", "sorting raised TypeError", "collapse keys 0", "collapsed_counts did not",
          "overlapping facets crashed", "NUMERIC(float, sortable=True)", "ignored the limit with groupedby", "collapse with collapse_order",
          "reversed sort on a text column", "grouped under the column default"],
  "C15": ["And([q, Every()])", "DisjunctionMax.normalize()", "simplify() raised TypeError on", "Wildcard.normalize()", "Sequence/Ordered lost",
-         "estimate_size() raised", "FuzzyTerm.simplify()", "NestedParent, NestedChildren"],
+         "estimate_size() raised", "FuzzyTerm.simplify()", "NestedParent, NestedChildren", "an unfielded Every()", "Or([NestedParent"],
  "C16": ['"a NOT AND b"', '"a ANDNOT ANDNOT b"', '"a (+b)"', "a range the field cannot interpret", "a quoted value on a BOOLEAN",
          "GtLtPlugin raised", "unparseable text on a DATETIME", "an empty quoted sequence", "an invalid regular expression",
          "exclusive bounds were ignored", "on a field the index lacks"],
- "C13": ["NUMERIC.unprepare_number", "decimal_places"],
- "C08": ["MultiReader.column_reader", "VarBytesColumn"],
- "C19": ["terms_within", "prefix longer"],
+ "C13": ["numeric ranges at the bottom", "empty numeric intervals", "decimal_places=N", "NUMERIC(float, signed=False)"],
+ "C08": ["multi-segment column reader", "VarBytesColumn lost", "several column types had no default", "iterating a CompressedBytesColumn", "NUMERIC(default=x, sortable=True)", "sortable DATETIME field failed"],
+ "C19": ["terms_within", "prefix longer than the word"],
  "C17": [], "C04": ["RamStorage"], "C18": ["BufferedWriter"], "C02": [], "C03": [], "C06": [], "C07": [],
 }
 log = subprocess.run(["git", "-C", "/repo", "log", "--reverse", "--format=%h\t%s"], capture_output=True, text=True).stdout
